@@ -68,7 +68,39 @@ def _tokio_fs(ex):
         if not (isinstance(v, VStruct) and v.name == "ReadyFuture"):
             raise Unsupported("poll of %r" % (v,))
         return VEnum("Poll", I(0), {0: [v.f[0]]})
-    ex.models = [(re.compile(r"^tokio::fs::copy::<"), tcopy, "tokio::fs::copy (recorded; completes at the await)"),
+
+    def tremove(ex_, st, args, dest_ty, func, where):
+        ok = ex_.fresh_bool("remove_ok")
+        fsmodels.record(ex_, st, "remove_file", path=fsmodels.path_term(ex_, st, args[0]), ok=ok)
+        return asyncmodels.ready(fsmodels.io_result(ex_, ok))
+
+    def tmeta(ex_, st, args, dest_ty, func, where):
+        # what the file system says about a path: all inputs (kind, permission bits, length)
+        ok = ex_.fresh_bool("metadata_ok")
+        fsmodels.record(ex_, st, "metadata", path=fsmodels.path_term(ex_, st, args[0]), ok=ok)
+        m = VStruct("TMetadata", [VBool(ex_.fresh_bool("is_file")), VBool(ex_.fresh_bool("is_dir")), VBool(ex_.fresh_bool("readonly")), VInt(ex_.fresh_int("len", ty="u64"), "u64")])
+        return asyncmodels.ready(fsmodels.io_result(ex_, ok, m))
+
+    def mfield(i):
+        def h(ex_, st, args, dest_ty, func, where):
+            m = fsmodels._deep(ex_, st, args[0])
+            if not (isinstance(m, VStruct) and m.name in ("TMetadata", "TPermissions")):
+                raise Unsupported("metadata accessor on %r" % (m,))
+            return m.f[i] if m.name == "TMetadata" else m.f[0]
+        return h
+
+    def mperm(ex_, st, args, dest_ty, func, where):
+        m = fsmodels._deep(ex_, st, args[0])
+        if not (isinstance(m, VStruct) and m.name == "TMetadata"):
+            raise Unsupported("permissions of %r" % (m,))
+        return VStruct("TPermissions", [m.f[2]])
+    ex.models = [(re.compile(r"^tokio::fs::remove_file::<"), tremove, "tokio::fs::remove_file (recorded)"),
+                 (re.compile(r"^tokio::fs::(symlink_)?metadata::<"), tmeta, "tokio::fs::metadata / symlink_metadata (recorded; kind, permissions and length are inputs)"),
+                 (re.compile(r"^(std::fs::)?Metadata::is_file$"), mfield(0), "Metadata::is_file"),
+                 (re.compile(r"^(std::fs::)?Metadata::is_dir$"), mfield(1), "Metadata::is_dir"),
+                 (re.compile(r"^(std::fs::)?Metadata::permissions$"), mperm, "Metadata::permissions"),
+                 (re.compile(r"^(std::fs::)?Permissions::readonly$"), mfield(0), "Permissions::readonly"),
+                 (re.compile(r"^tokio::fs::copy::<"), tcopy, "tokio::fs::copy (recorded; completes at the await)"),
                  (re.compile(r"^tokio::fs::rename::<"), trename, "tokio::fs::rename (recorded; completes at the await)"),
                  (re.compile(r"^<\{async fn body of (tokio::fs::\w+<.*>|Semaphore::acquire|transfer::join_handles|join_handles)\(\)\} as (std::future::)?Future>::poll$"), poll_ready, "poll of an immediately-ready library future"),
                  ] + ex.models
@@ -703,14 +735,22 @@ def order_witness(R, pid):
         os.makedirs(d)
         _write_tree(s, {"f.txt": ("new-content", 1_700_000_000), "n.bin": ("brand-new-file", 1_700_000_001)})
         _write_tree(d, {"f.txt": ("old", 1_600_000_000)})
+        # a destination file without write permission (what an earlier sync of a read-only source leaves behind): it too is
+        # only ever REPLACED by the rename - never unlinked first (a kill in between would leave neither version)
+        _write_tree(s, {"ro.txt": ("new-read-only-content", 1_700_000_002)})
+        _write_tree(d, {"ro.txt": ("old-ro", 1_600_000_002)})
+        os.chmod(os.path.join(d, "ro.txt"), 0o444)
         log = os.path.join(base, "trace.log")
         subprocess.run(["strace", "-f", "-y", "-e", "trace=openat,open,creat,rename,renameat,renameat2,unlink,unlinkat,copy_file_range,write", "-o", log, exe, "sync", "-r", s, d],
                        stdout=subprocess.PIPE, stderr=subprocess.PIPE, text=True, timeout=120)
         breach = None
-        for live in (os.path.join(d, "f.txt"), os.path.join(d, "n.bin")):
+        for live in (os.path.join(d, "f.txt"), os.path.join(d, "n.bin"), os.path.join(d, "ro.txt")):
           renamed = False
           for line in open(log, errors="replace"):
             if breach or live not in line:
+                continue
+            if re.search(r"unlink(at)?\(.*\"%s\"" % re.escape(live), line):
+                breach = "the destination file %s is unlinked (%s) - a delivery must only replace it by the rename" % (os.path.basename(live), line.strip()[:120])
                 continue
             # (set_local_mtime opens the delivered file O_WRONLY without O_TRUNC/O_CREAT only to set its times: harmless)
             if re.search(r"(openat|open|creat)\(.*\"%s\".*(O_CREAT|O_TRUNC)" % re.escape(live), line) or \
@@ -791,7 +831,10 @@ def run(R, tier, seed):
                   "native oracle: the real copia binary (`copia sync -r`) built from /repo"]
     R.assumptions += ["LOCAL -> LOCAL only; ONE schedule (futures complete at their await, a spawned task runs at its spawn point): the job count and task interleavings are NOT explored",
                       "build_plan is an arbitrary SyncPlan here (it is decided under C19); deliver_local is decided on its own and summarised in the orchestration",
-                      "push / pull over ssh (remote `cat > tmp && mv`, `xargs rm`, `find -printf`) are NOT covered; crash points (C09) are not explored"]
+                      "push / pull over ssh: the COMMAND LINES handed to ssh by transfer_file_to_remote, transfer_file_from_remote and discover_remote_with_meta are decided as text "
+                      "(obligations/shellcmd.py: remote path of 0..2 (quick) / 0..3 (thorough) characters, each any code point; bash's reading of $'..' is a contract validated natively), "
+                      "and the push stream (every chunk read is written in full, Ok only after the pipe was closed and the remote command exited 0, at most 2 chunks); "
+                      "NOT covered: the remote mkdir / rm lists (`xargs -d '\\n'`), run_push / run_pull orchestration, what the remote commands themselves do, crash points (C09)"]
     ctx = Ctx()
     prover = Prover(R, tier)
     for what, f in (("deliver_local", lambda: deliver_obligation(ctx, R, prover)), ("run_local", lambda: run_local_obligation(ctx, R, prover, 2 if tier == "quick" else 3))):
@@ -803,10 +846,32 @@ def run(R, tier, seed):
         native_validation(R)
     except (Inconclusive, subprocess.TimeoutExpired) as e:
         R.add("C04/native-end-to-end", "inconclusive", detail=str(e)[:400])
+    remote_commands(R, tier, "C04", ("push", "pull", "list"))
+
+
+def remote_commands(R, tier, pid, which):
+    from . import shellcmd
+    prover = Prover(R, tier)
+    sctx = shellcmd.Ctx()
+    n = 2 if tier == "quick" else 3
+    for what in which:
+        try:
+            getattr(shellcmd, what + "_obligation")(sctx, R, prover, pid, n)
+        except (Inconclusive, Unsupported) as e:
+            R.add("%s/%s/command/encoding" % (pid, what), "inconclusive", detail=str(e)[:400])
+    try:
+        shellcmd.bash_contract_validation(R, pid)
+        shellcmd.native_validation(R, pid, tuple(w for w in which if w != "list"))
+    except (Inconclusive, subprocess.TimeoutExpired) as e:
+        R.add("%s/remote-shell/native" % pid, "inconclusive", detail=str(e)[:400])
 
 
 def replay(path):
     case = json.load(open(path))["case"]
+    if case.get("fn") == "remote_shell_transport":
+        from . import shellcmd
+        shellcmd.replay_case(case)
+        return 0
     case.pop("deviation", None)
     case.pop("fn", None)
     for prof in ("dev", "release"):
